@@ -56,7 +56,9 @@ func runC12(r *rt.Runner) {
 			rng := c.Rand()
 			kind := allKinds[rng.IntN(len(allKinds))]
 			it := genCorpusItem(c, env, kind, rng.IntN(4) == 0)
-			c.SetDetail(func() string { return fmt.Sprintf("%s (%s), %d bytes: %q", it.kind, it.desc, len(it.data), head(it.data, 3000)) })
+			c.SetDetail(func() string {
+				return fmt.Sprintf("%s (%s), %d bytes: %q", it.kind, it.desc, len(it.data), head(it.data, 3000))
+			})
 			refOut, _ := runPlan(env, kind, it.data, nil, false, false)
 			check := func(desc string, chunks []int, ewd, seek bool, bounds ...int) {
 				got, reads := runPlan(env, kind, it.data, chunks, ewd, seek, bounds...)
